@@ -28,7 +28,7 @@ func init() {
 			return 1280
 		},
 		Batch: func(t string) int { return 32 },
-		Floors: []string{"roundtrips", "mode_encrypted_footer", "mode_plaintext_footer", "keys_footer_only", "keys_per_column", "missing_column_key_checks", "leak_scans", "markers_searched", "tamper_byte_flips", "tamper_truncations", "tamper_module_swaps",
+		Floors: []string{"roundtrips", "mode_encrypted_footer", "mode_plaintext_footer", "keys_footer_only", "keys_per_column", "missing_column_key_checks", "leak_scans", "markers_searched", "tamper_byte_flips", "tamper_truncations", "tamper_module_swaps", "tamper_swaps_256_apart", "wide_ordinal_files", "encrypted_seeks",
 			"tamper_cross_file_transplants", "tamper_wrong_key", "writer_reuse_after_reset", "write_rowgroup_from_encrypted_source", "envelope_walks"},
 		Rule: "case = ({encrypted footer, signed plaintext footer} x {footer key only, per-column keys} x v1/v2 x codecs x page index / bloom filters x 1..n row groups x {fresh writer, writer reused through Reset after a file with another number of row groups}; " +
 			"string values are unique 16-byte high-entropy markers). (a) round trip with the right keys equals the rows written; a reader lacking a column key gets an error for that column, never zeros; (b) no marker of an encrypted column (values or statistics) occurs in the raw bytes; " +
@@ -98,6 +98,12 @@ func walkModules(data []byte, end int) ([][2]int, bool) {
 func runC18(c *Ctx) {
 	r := c.R
 	n := gen.Pick(r, []int{10, 60, 200})
+	// every eighth case has more than 256 pages per column chunk, or more than 256 row groups:
+	// the ordinals in the AAD of a module are 16-bit values, both bytes of which matter
+	wideOrdinals := c.Case%8 == 5
+	if wideOrdinals {
+		n = gen.Pick(r, []int{300, 600})
+	}
 	rows := c18Rows(r, n, 'a')
 	encFooter := c.Case%2 == 0
 	perColumn := (c.Case/2)%2 == 0
@@ -120,7 +126,16 @@ func runC18(c *Ctx) {
 	codec := gen.Pick(r, allCodecs[:3]) // uncompressed, snappy, gzip
 	wopts := []parquet.WriterOption{parquet.WithEncryption(cfg), parquet.DataPageVersion(version), parquet.Compression(codec), parquet.PageBufferSize(gen.Pick(r, []int{256, 4096}))}
 	desc := []string{fmt.Sprintf("v%d", version), codec.String()}
-	if r.P(50) {
+	if wideOrdinals {
+		if r.Bool() {
+			wopts = append(wopts, parquet.PageBufferSize(1))
+			desc = append(desc, "one-row-pages")
+		} else {
+			wopts = append(wopts, parquet.MaxRowsPerRowGroup(1))
+			desc = append(desc, "one-row-rowgroups")
+		}
+		c.Obs("wide_ordinal_files", 1)
+	} else if r.P(50) {
 		wopts = append(wopts, parquet.MaxRowsPerRowGroup(int64(n/3+1)))
 		desc = append(desc, "multi-rg")
 	}
@@ -220,6 +235,59 @@ func runC18(c *Ctx) {
 		return
 	}
 	c.Obs("roundtrips", 1)
+	// (a') seek histories on the untampered file: the page ordinals in the AAD follow the position
+	if len(rows) > 1 {
+		seekErr := func() (err error) {
+			defer func() {
+				if p := recover(); p != nil {
+					err = fmt.Errorf("PANIC: %v", p)
+				}
+			}()
+			fopts := []parquet.FileOption{parquet.WithDecryption(keys)}
+			if r.P(30) {
+				fopts = append(fopts, parquet.SkipPageIndex(true))
+			}
+			if r.P(30) {
+				fopts = append(fopts, parquet.ReadBufferSize(gen.Pick(r, []int{64, 65536})))
+			}
+			f, err := parquet.OpenFile(bytes.NewReader(data), int64(len(data)), fopts...)
+			if err != nil {
+				return err
+			}
+			gr := parquet.NewGenericReader[c18Row](f)
+			defer gr.Close()
+			buf := make([]c18Row, 8)
+			pos := 0
+			for step := 0; step < 12; step++ {
+				var k int
+				switch r.Intn(4) {
+				case 0:
+					k = r.Intn(len(rows)) // anywhere
+				case 1:
+					k = min(len(rows)-1, pos+r.Intn(4)) // just ahead: the target is usually already buffered
+				default:
+					k = min(len(rows)-1, pos+r.Intn(40))
+				}
+				if err := gr.SeekToRow(int64(k)); err != nil {
+					return fmt.Errorf("SeekToRow(%d): %w", k, err)
+				}
+				n, err := gr.Read(buf[:1+r.Intn(8)])
+				if err != nil && !errors.Is(err, io.EOF) {
+					return fmt.Errorf("Read after SeekToRow(%d) (previous position %d): %w", k, pos, err)
+				}
+				if k+n > len(rows) || !reflect.DeepEqual(buf[:n], rows[k:k+n]) {
+					return fmt.Errorf("Read after SeekToRow(%d) returned %d rows that are not rows %d..%d", k, n, k, k+n)
+				}
+				pos = k + n
+				c.Obs("encrypted_seeks", 1)
+			}
+			return nil
+		}()
+		if seekErr != nil {
+			c.Fail("c18.seek", kd, "seeking in the untampered encrypted file with the right keys: %v", seekErr)
+			return
+		}
+	}
 	// reader lacking a column key
 	if perColumn {
 		partial := &mapKeys{footer: footerKey, columns: keys.columns, missing: map[string]bool{"secret": true}}
@@ -343,6 +411,24 @@ func runC18(c *Ctx) {
 			c.Obs("tamper_module_swaps", 1)
 			if !tampered(fmt.Sprintf("swap of the modules at %d and %d (%d bytes each)", a[0], b[0], a[1]), bad) {
 				return
+			}
+		}
+		// swaps of equal-length modules whose positions differ by a multiple of 256 (same low ordinal byte)
+		if wideOrdinals {
+			for t := 0; t < 24 && len(mods) > 300; t++ {
+				i := r.Intn(len(mods))
+				j := i + 256*gen.Pick(r, []int{1, 2, 3, 4, 5, 6, 8, 10, 12})
+				if j >= len(mods) || mods[i][1] != mods[j][1] {
+					continue
+				}
+				a, b := mods[i], mods[j]
+				bad := append([]byte{}, data...)
+				copy(bad[a[0]:a[0]+a[1]], data[b[0]:b[0]+b[1]])
+				copy(bad[b[0]:b[0]+b[1]], data[a[0]:a[0]+a[1]])
+				c.Obs("tamper_swaps_256_apart", 1)
+				if !tampered(fmt.Sprintf("swap of modules #%d and #%d (%d apart, %d bytes each)", i, j, j-i, a[1]), bad) {
+					return
+				}
 			}
 		}
 		// truncations
